@@ -109,13 +109,16 @@ func newEntry[T any](i T) *entry[T] {
 // value is present.
 // The ok result indicates whether value was found in the map.
 func (m *Map[K, V]) Load(key K) (value V, ok bool) {
+	verifYield("Load.readLoad1")
 	read, _ := m.read.Load().(readOnly[K, V])
 	e, ok := read.m[key]
 	if !ok && read.amended {
+		verifMuLock(&m.mu)
 		m.mu.Lock()
 		// Avoid reporting a spurious miss if m.dirty got promoted while we were
 		// blocked on m.mu. (If further loads of the same key will not miss, it's
 		// not worth copying the dirty map for this key.)
+		verifYield("Load.readLoad2")
 		read, _ = m.read.Load().(readOnly[K, V])
 		e, ok = read.m[key]
 		if !ok && read.amended {
@@ -126,6 +129,7 @@ func (m *Map[K, V]) Load(key K) (value V, ok bool) {
 			m.missLocked()
 		}
 		m.mu.Unlock()
+		verifMuUnlocked(&m.mu)
 	}
 	if !ok {
 		return typ.Zero[V](), false
@@ -134,6 +138,7 @@ func (m *Map[K, V]) Load(key K) (value V, ok bool) {
 }
 
 func (m *entry[T]) load() (value T, ok bool) {
+	verifYield("load.loadPtr1")
 	p := atomic.LoadPointer(&m.p)
 	if p == nil || p == expunged {
 		return typ.Zero[T](), false
@@ -143,12 +148,15 @@ func (m *entry[T]) load() (value T, ok bool) {
 
 // Store sets the value for a key.
 func (m *Map[K, V]) Store(key K, value V) {
+	verifYield("Store.readLoad1")
 	read, _ := m.read.Load().(readOnly[K, V])
 	if e, ok := read.m[key]; ok && e.tryStore(&value) {
 		return
 	}
 
+	verifMuLock(&m.mu)
 	m.mu.Lock()
+	verifYield("Store.readLoad2")
 	read, _ = m.read.Load().(readOnly[K, V])
 	if e, ok := read.m[key]; ok {
 		if e.unexpungeLocked() {
@@ -164,11 +172,13 @@ func (m *Map[K, V]) Store(key K, value V) {
 			// We're adding the first new key to the dirty map.
 			// Make sure it is allocated and mark the read-only map as incomplete.
 			m.dirtyLocked()
+			verifYield("Store.readStore1")
 			m.read.Store(readOnly[K, V]{m: read.m, amended: true})
 		}
 		m.dirty[key] = newEntry(value)
 	}
 	m.mu.Unlock()
+	verifMuUnlocked(&m.mu)
 }
 
 // tryStore stores a value if the entry has not been expunged.
@@ -177,10 +187,12 @@ func (m *Map[K, V]) Store(key K, value V) {
 // unchanged.
 func (m *entry[T]) tryStore(i *T) bool {
 	for {
+		verifYield("tryStore.loadPtr1")
 		p := atomic.LoadPointer(&m.p)
 		if p == expunged {
 			return false
 		}
+		verifYield("tryStore.casPtr1")
 		if atomic.CompareAndSwapPointer(&m.p, p, unsafe.Pointer(i)) {
 			return true
 		}
@@ -192,6 +204,7 @@ func (m *entry[T]) tryStore(i *T) bool {
 // If the entry was previously expunged, it must be added to the dirty map
 // before m.mu is unlocked.
 func (m *entry[T]) unexpungeLocked() (wasExpunged bool) {
+	verifYield("unexpungeLocked.casPtr1")
 	return atomic.CompareAndSwapPointer(&m.p, expunged, nil)
 }
 
@@ -199,6 +212,7 @@ func (m *entry[T]) unexpungeLocked() (wasExpunged bool) {
 //
 // The entry must be known not to be expunged.
 func (m *entry[T]) storeLocked(i *T) {
+	verifYield("storeLocked.storePtr1")
 	atomic.StorePointer(&m.p, unsafe.Pointer(i))
 }
 
@@ -207,6 +221,7 @@ func (m *entry[T]) storeLocked(i *T) {
 // The loaded result is true if the value was loaded, false if stored.
 func (m *Map[K, V]) LoadOrStore(key K, value V) (actual V, loaded bool) {
 	// Avoid locking if it's a clean hit.
+	verifYield("LoadOrStore.readLoad1")
 	read, _ := m.read.Load().(readOnly[K, V])
 	if e, ok := read.m[key]; ok {
 		actual, loaded, ok := e.tryLoadOrStore(value)
@@ -215,7 +230,9 @@ func (m *Map[K, V]) LoadOrStore(key K, value V) (actual V, loaded bool) {
 		}
 	}
 
+	verifMuLock(&m.mu)
 	m.mu.Lock()
+	verifYield("LoadOrStore.readLoad2")
 	read, _ = m.read.Load().(readOnly[K, V])
 	if e, ok := read.m[key]; ok {
 		if e.unexpungeLocked() {
@@ -230,12 +247,14 @@ func (m *Map[K, V]) LoadOrStore(key K, value V) (actual V, loaded bool) {
 			// We're adding the first new key to the dirty map.
 			// Make sure it is allocated and mark the read-only map as incomplete.
 			m.dirtyLocked()
+			verifYield("LoadOrStore.readStore1")
 			m.read.Store(readOnly[K, V]{m: read.m, amended: true})
 		}
 		m.dirty[key] = newEntry(value)
 		actual, loaded = value, false
 	}
 	m.mu.Unlock()
+	verifMuUnlocked(&m.mu)
 
 	return actual, loaded
 }
@@ -246,6 +265,7 @@ func (m *Map[K, V]) LoadOrStore(key K, value V) (actual V, loaded bool) {
 // If the entry is expunged, tryLoadOrStore leaves the entry unchanged and
 // returns with ok==false.
 func (m *entry[T]) tryLoadOrStore(i T) (actual T, loaded, ok bool) {
+	verifYield("tryLoadOrStore.loadPtr1")
 	p := atomic.LoadPointer(&m.p)
 	if p == expunged {
 		return typ.Zero[T](), false, false
@@ -259,9 +279,11 @@ func (m *entry[T]) tryLoadOrStore(i T) (actual T, loaded, ok bool) {
 	// shouldn't bother heap-allocating.
 	ic := i
 	for {
+		verifYield("tryLoadOrStore.casPtr1")
 		if atomic.CompareAndSwapPointer(&m.p, nil, unsafe.Pointer(&ic)) {
 			return i, false, true
 		}
+		verifYield("tryLoadOrStore.loadPtr2")
 		p = atomic.LoadPointer(&m.p)
 		if p == expunged {
 			return typ.Zero[T](), false, false
@@ -275,10 +297,13 @@ func (m *entry[T]) tryLoadOrStore(i T) (actual T, loaded, ok bool) {
 // LoadAndDelete deletes the value for a key, returning the previous value if any.
 // The loaded result reports whether the key was present.
 func (m *Map[K, V]) LoadAndDelete(key K) (value V, loaded bool) {
+	verifYield("LoadAndDelete.readLoad1")
 	read, _ := m.read.Load().(readOnly[K, V])
 	e, ok := read.m[key]
 	if !ok && read.amended {
+		verifMuLock(&m.mu)
 		m.mu.Lock()
+		verifYield("LoadAndDelete.readLoad2")
 		read, _ = m.read.Load().(readOnly[K, V])
 		e, ok = read.m[key]
 		if !ok && read.amended {
@@ -290,6 +315,7 @@ func (m *Map[K, V]) LoadAndDelete(key K) (value V, loaded bool) {
 			m.missLocked()
 		}
 		m.mu.Unlock()
+		verifMuUnlocked(&m.mu)
 	}
 	if ok {
 		return e.delete()
@@ -304,10 +330,12 @@ func (m *Map[K, V]) Delete(key K) {
 
 func (m *entry[T]) delete() (value T, ok bool) {
 	for {
+		verifYield("delete.loadPtr1")
 		p := atomic.LoadPointer(&m.p)
 		if p == nil || p == expunged {
 			return typ.Zero[T](), false
 		}
+		verifYield("delete.casPtr1")
 		if atomic.CompareAndSwapPointer(&m.p, p, nil) {
 			return *(*T)(p), true
 		}
@@ -329,21 +357,26 @@ func (m *Map[K, V]) Range(f func(key K, value V) bool) {
 	// present at the start of the call to Range.
 	// If read.amended is false, then read.m satisfies that property without
 	// requiring us to hold m.mu for a long time.
+	verifYield("Range.readLoad1")
 	read, _ := m.read.Load().(readOnly[K, V])
 	if read.amended {
 		// m.dirty contains keys not in read.m. Fortunately, Range is already O(N)
 		// (assuming the caller does not break out early), so a call to Range
 		// amortizes an entire copy of the map: we can promote the dirty copy
 		// immediately!
+		verifMuLock(&m.mu)
 		m.mu.Lock()
+		verifYield("Range.readLoad2")
 		read, _ = m.read.Load().(readOnly[K, V])
 		if read.amended {
 			read = readOnly[K, V]{m: m.dirty}
+			verifYield("Range.readStore1")
 			m.read.Store(read)
 			m.dirty = nil
 			m.misses = 0
 		}
 		m.mu.Unlock()
+		verifMuUnlocked(&m.mu)
 	}
 
 	for k, e := range read.m {
@@ -362,6 +395,7 @@ func (m *Map[K, V]) missLocked() {
 	if m.misses < len(m.dirty) {
 		return
 	}
+	verifYield("missLocked.readStore1")
 	m.read.Store(readOnly[K, V]{m: m.dirty})
 	m.dirty = nil
 	m.misses = 0
@@ -372,6 +406,7 @@ func (m *Map[K, V]) dirtyLocked() {
 		return
 	}
 
+	verifYield("dirtyLocked.readLoad1")
 	read, _ := m.read.Load().(readOnly[K, V])
 	m.dirty = make(map[K]*entry[V], len(read.m))
 	for k, e := range read.m {
@@ -382,11 +417,14 @@ func (m *Map[K, V]) dirtyLocked() {
 }
 
 func (m *entry[T]) tryExpungeLocked() (isExpunged bool) {
+	verifYield("tryExpungeLocked.loadPtr1")
 	p := atomic.LoadPointer(&m.p)
 	for p == nil {
+		verifYield("tryExpungeLocked.casPtr1")
 		if atomic.CompareAndSwapPointer(&m.p, nil, expunged) {
 			return true
 		}
+		verifYield("tryExpungeLocked.loadPtr2")
 		p = atomic.LoadPointer(&m.p)
 	}
 	return p == expunged
